@@ -30,6 +30,11 @@ def run(cx):
     from props.shared import half_connection_clock
     half_connection_clock(cx, "C11.l")
     ack_advance_exact(cx, "C11.m")
+    # the packet resynchronisation id must be offered whenever nothing awaits (re)sending — a stricter test (for
+    # instance one that also waits for the application's send queue to drain) leaves a window that is full of
+    # lost unreliable packets closed for ever
+    from props.C02 import inst_resync_guard
+    inst_resync_guard(cx, "C11.n")
 
 
 def window_limited_still_syncs(cx, iid):
@@ -242,6 +247,20 @@ def sync_reply_mechanism(cx, ida, idb):
             cx.preceded_by(inst, cb, [(clr[0], "sync_reply = false")], call_locs(cb, "FrameSink::send"), "reply cleared without send", "FrameSink::send")
 
 
+def ack_frame_applies_both(cx, iid):
+    R = cx.R
+    with cx.instance(iid, "T2 PAIR", "an ack frame always advances the transfer window and acknowledges the packet window with the frame's bases", floor=2) as inst:
+        b = R.body(HC + "handle_ack_frame")
+        for callee, arg in (("FrameQueue::advance_transfer_window", "arg2.frame_window_base_id"), ("PacketSender::acknowledge", "arg2.packet_window_base_id")):
+            cs = call_sites(b, callee)
+            for loc, lab in cs:
+                a = show(b.operand_expr(b.node_at(loc)["args"][1]))
+                inst.site(b, loc, "%s(%s)" % (callee, a))
+                if a != arg:
+                    inst.violation(b.path, callee, "%s is given `%s`, expected %s" % (callee, a, arg), at=b.span_at(loc))
+            cx.followed_by(inst, b, [(Loc(0, -1), "entry of handle_ack_frame")], [l for l, _ in cs], callee + " skipped", callee)
+
+
 def rest(cx):
     R = cx.R
     with cx.instance("C11.c", "T7 SHAPE", "the ack emitter is built from the receiver's current frame-window and packet-window bases", floor=1) as inst:
@@ -257,16 +276,7 @@ def rest(cx):
         fq = R.body("FrameAckQueue::base_id")
         if show(fq.local_expr(0)) != "ReceiveWindow::base_id(arg1.receive_window)":
             inst.violation(fq.path, "base_id accessor", "FrameAckQueue::base_id returns `%s`" % show(fq.local_expr(0)))
-    with cx.instance("C11.d", "T2 PAIR", "an ack frame always advances the transfer window and acknowledges the packet window with the frame's bases", floor=2) as inst:
-        b = R.body(HC + "handle_ack_frame")
-        for callee, arg in (("FrameQueue::advance_transfer_window", "arg2.frame_window_base_id"), ("PacketSender::acknowledge", "arg2.packet_window_base_id")):
-            cs = call_sites(b, callee)
-            for loc, lab in cs:
-                a = show(b.operand_expr(b.node_at(loc)["args"][1]))
-                inst.site(b, loc, "%s(%s)" % (callee, a))
-                if a != arg:
-                    inst.violation(b.path, callee, "%s is given `%s`, expected %s" % (callee, a, arg), at=b.span_at(loc))
-            cx.followed_by(inst, b, [(Loc(0, -1), "entry of handle_ack_frame")], [l for l, _ in cs], callee + " skipped", callee)
+    ack_frame_applies_both(cx, "C11.d")
     with cx.instance("C11.e", "T1 GUARD", "next_frame_id is offered iff frames are outstanding; a data frame resets the sync timer", floor=2) as inst:
         b = R.body(HC + "emit_sync_frame")
         from rules import root_local
